@@ -336,11 +336,15 @@ def renderFromJoinMarker (c : ECfg S) (idx : Nat) (l : Live S.V) : NRes S (Outpu
       match renderToks S cfg (uptoMarker ts) l.rs with
       | (rs1, .error e) => (l.withRS rs1, .error e)
       | (rs1, .ok r) =>
-        let all := p.choices.map (fun ch => (ch, (none : Option String), false))
-        match offerChoices cfg l.cur l.used (fun ch => ch.sec == idx + 1) all rs1 with
+        -- the section's own choices first, then the choices written inside @if/@for blocks of the section just rendered
+        let all := (p.choices.filter (fun ch => ch.sec == idx + 1)).map (fun ch => (ch, (none : Option String), false))
+                   ++ dirChoices r.dirs
+        match offerChoices cfg l.cur l.used (fun _ => true) all rs1 with
         | (rs2, .error e) => (l.withRS rs2, .error e)
         | (rs2, .ok os) =>
-          (l.withRS rs2, .ok { content := r.text, choices := os, pid := pid, rdirs := r.dirs, jump := r.jump })
+          (l.withRS rs2, .ok { content := r.text, choices := os, pid := pid, jump := r.jump
+                               rdirs := r.dirs.filter (fun d => !d.isChoice && !d.isInput)
+                               idirs := r.dirs.filter (·.isInput) })
 
 /-- `_execute_join_choice` -/
 def joinChoice (c : ECfg S) (ch : OChoice) (l : Live S.V) : NRes S (Output S.V) :=
